@@ -129,14 +129,24 @@ func (w *world) commitHonest() {
 	w.h++
 }
 
-// toRound brings the node to (h, r) in step Propose without a proposal.
-func (w *world) toRound(r int) bool {
+// toRound brings the node to (h, r) in step Propose without a proposal. With seen, the honest proposer of round r-1
+// proposed its (fully valid) block there, the node validated and prevoted it, and the round ended without a polka:
+// the round-r proposer then builds its proposal from THAT block (same header unless the corruption changes it).
+func (w *world) toRound(r int, seen bool) bool {
 	w.T() // NewHeight -> round 0 Propose
 	for cur := 0; cur < r; cur++ {
 		if w.proposer(cur) == w.self {
 			return false // the node itself proposed in an earlier round: not a scenario of this check
 		}
-		w.T() // propose timeout -> prevote nil
+		if seen && cur == r-1 {
+			b, ps := w.honestBlock(w.proposer(cur), 3)
+			w.propose(cur, -1, b, ps)
+			if pv := w.ownVote(cur, types.VoteTypePrevote); pv == nil || pv.BlockID.IsZero() {
+				vk.Fatalf("h%d r%d: the node did not prevote the honest block of the earlier round", w.h, cur)
+			}
+		} else {
+			w.T() // propose timeout -> prevote nil
+		}
 		w.votes(types.VoteTypePrevote, cur, types.BlockID{})
 		w.votes(types.VoteTypePrecommit, cur, types.BlockID{})
 		// +2/3 nil precommits: the node moves to the next round
@@ -602,17 +612,25 @@ type result struct {
 var killCount int
 var killMu sync.Mutex
 
-func runCase(f *csnet.Fixture, self int, h uint64, r, pol int, cors []corruption) result {
+func runCase(f *csnet.Fixture, self int, h uint64, r, pol int, seen bool, cors []corruption) result {
 	var res result
 	w := newWorld(f, self)
 	defer w.n.Close()
 	for w.h < h {
 		w.commitHonest()
 	}
-	if !w.toRound(r) {
+	if !w.toRound(r, seen) {
 		return res
 	}
-	b, _ := w.honestBlock(w.proposer(r), 3)
+	base := w.proposer(r)
+	if seen {
+		base = w.proposer(r - 1) // the block the node validated in the earlier round is the raw material
+	}
+	b, _ := w.honestBlock(base, 3)
+	var pristine types.Header
+	if seen {
+		pristine = *b.Header
+	}
 	var names []string
 	for _, c := range cors {
 		names = append(names, c.name)
@@ -623,6 +641,13 @@ func runCase(f *csnet.Fixture, self int, h uint64, r, pol int, cors []corruption
 		if p, _ := vk.Catch(func() { okc = c.apply(w, b) }); p || !okc {
 			return res // not applicable (e.g. second corruption of a component the first one removed)
 		}
+	}
+	if seen {
+		// the proposer keeps the header the node has already validated and changes only what is underneath it
+		// (corruptions of header fields become the honest block again: valid, and prevoted as such)
+		h := pristine
+		b.Header = &h
+		names = append(names, "under-the-header-validated-in-the-earlier-round")
 	}
 	res.applicable = true
 	tag := strings.Join(names, " + ")
@@ -732,6 +757,7 @@ func main() {
 		r    int
 		pol  int // proof-of-lock round the proposer claims (-1 none; an earlier round that ended in a nil polka)
 		self int
+		seen bool // the node validated and prevoted the honest block in round r-1; the corrupted proposal is built from it
 		cs   []corruption
 	}
 	var jobs []job
@@ -742,7 +768,10 @@ func main() {
 			for self := 0; self < 4; self++ {
 				for pol := -1; pol < rd; pol++ {
 					for _, c := range cors {
-						jobs = append(jobs, job{h, rd, pol, self, []corruption{c}})
+						jobs = append(jobs, job{h, rd, pol, self, false, []corruption{c}})
+						if rd > 0 && pol == -1 {
+							jobs = append(jobs, job{h, rd, pol, self, true, []corruption{c}})
+						}
 					}
 				}
 			}
@@ -758,7 +787,7 @@ func main() {
 			for _, a := range cors {
 				for _, b := range cors {
 					if a.name < b.name {
-						jobs = append(jobs, job{h, rd, rd - 1, 3, []corruption{a, b}})
+						jobs = append(jobs, job{h, rd, rd - 1, 3, false, []corruption{a, b}})
 					}
 				}
 			}
@@ -770,6 +799,7 @@ func main() {
 			Round       int      `json:"round"`
 			Pol         int      `json:"pol_round"`
 			Node        int      `json:"node"`
+			Seen        bool     `json:"honest_block_validated_in_earlier_round"`
 			Corruptions []string `json:"corruptions"`
 		}
 		r.LoadReplay(&rep)
@@ -785,7 +815,7 @@ func main() {
 			vk.Fatalf("replay: unknown corruption in %v", rep.Corruptions)
 		}
 		for i := 0; i < 5; i++ {
-			res := runCase(f, rep.Node, rep.Height, rep.Round, rep.Pol, sel)
+			res := runCase(f, rep.Node, rep.Height, rep.Round, rep.Pol, rep.Seen, sel)
 			fmt.Printf("replay run %d: prevoted=%v precommitted=%v committed=%v applied=%v refValid=%v repoValid=%v\n", i, res.prevoted, res.precommitted, res.committed, res.applied, res.refOK, res.repoOK)
 			if res.viol[0] != "" {
 				r.Violation(res.viol[0], res.viol[1], rep)
@@ -801,7 +831,7 @@ func main() {
 			return
 		}
 		j := jobs[i]
-		res := runCase(f, j.self, j.h, j.r, j.pol, j.cs)
+		res := runCase(f, j.self, j.h, j.r, j.pol, j.seen, j.cs)
 		mu.Lock()
 		defer mu.Unlock()
 		done++
@@ -825,7 +855,7 @@ func main() {
 			names = append(names, c.name)
 		}
 		if res.viol[0] != "" {
-			r.Violation(res.viol[0], res.viol[1], map[string]interface{}{"height": j.h, "round": j.r, "pol_round": j.pol, "node": j.self, "corruptions": names})
+			r.Violation(res.viol[0], res.viol[1], map[string]interface{}{"height": j.h, "round": j.r, "pol_round": j.pol, "node": j.self, "honest_block_validated_in_earlier_round": j.seen, "corruptions": names})
 		}
 		if i%97 == 0 {
 			r.Sample(map[string]interface{}{"height": j.h, "round": j.r, "corruptions": names, "reference_valid": res.refOK, "ValidateBlock_valid": res.repoOK,
